@@ -1159,7 +1159,10 @@ fast_composite_scaled_bilinear ## scale_func_name (pixman_implementation_t *imp,
 				   unit_x, src_width_fixed, FALSE);				\
 												\
 		    width_remain -= num_pixels;							\
-		    vx += num_pixels * unit_x;							\
+		    /* vx + num_pixels * unit_x can exceed 32 bits when the source	\
+		     * width plus one step is more than 32768 pixels */			\
+		    vx = (pixman_fixed_t)(((pixman_fixed_48_16_t)vx +				\
+			  (pixman_fixed_48_16_t)num_pixels * unit_x) % src_width_fixed);	\
 		    dst += num_pixels;								\
 												\
 		    if (flags & FLAG_HAVE_NON_SOLID_MASK)					\
@@ -1187,7 +1190,10 @@ fast_composite_scaled_bilinear ## scale_func_name (pixman_implementation_t *imp,
 				   weight1, weight2, vx, unit_x, src_width_fixed, FALSE);	\
 												\
 		    width_remain -= num_pixels;							\
-		    vx += num_pixels * unit_x;							\
+		    /* vx + num_pixels * unit_x can exceed 32 bits when the source	\
+		     * width plus one step is more than 32768 pixels */			\
+		    vx = (pixman_fixed_t)(((pixman_fixed_48_16_t)vx +				\
+			  (pixman_fixed_48_16_t)num_pixels * unit_x) % src_width_fixed);	\
 		    dst += num_pixels;								\
 												\
 		    if (flags & FLAG_HAVE_NON_SOLID_MASK)					\
